@@ -1,4 +1,5 @@
 import Chain33Model.Proofs.C02
+import Chain33Model.Proofs.C01Depth
 /-!
 C02 — State root depends only on prior root and ordered writes.  Property theorems only (helpers: Proofs/C02.lean).
 
@@ -9,9 +10,15 @@ state tree `t` (`applyBlock` = the loop of `SetKVPair` / `MemSet` followed by `N
 namespace C02
 open C01 C03
 
-/-- **root_cfg_independent** — two stores with *any* two configurations (key prefixing, pruning, memTree, memVal,
-MVCC) that apply the same ordered writes — even at different block heights — compute the same root hash after
-every block. -/
+/-- **root_cfg_independent** — two stores with *any* two configurations that apply the same ordered writes — even
+at different block heights — compute the same root hash after every block.  What this says, flag by flag: `roots`
+(the in-memory evolution: the writes followed by `Node.Hash`) reads exactly ONE field of the configuration, `cfg.pfx`
+(key prefixing; `EnableMavlPrune` forces it); the theorem's content is that the prefix, and the block height that
+goes into it, never reach a root hash.  `prune`, `memTree`, `memVal` and `mvcc` do not occur in `roots` at all, so
+independence from them holds by construction of the model: their effects lie in save/load (MVCC elides values on
+reload), in the pruning bookkeeping and in the memTree cache, and for those the statement "the model's `roots` is
+what the code computes" is established by the differential run only (all 32 option sets) — where it FAILS for
+memTree (`cache_transparent_full_false`, KNOWN-FINDING). -/
 theorem root_cfg_independent {H : Bytes → Bytes} (hlen : ∀ x, (H x).length = 32) (cfg₁ cfg₂ : Cfg)
     (blocks : List (Nat × Nat × List (Bytes × Bytes))) (rs : List Bytes)
     (h : roots H cfg₁ none (blocks.map fun b => (b.1, b.2.2)) = some rs) :
@@ -19,7 +26,9 @@ theorem root_cfg_independent {H : Bytes → Bytes} (hlen : ∀ x, (H x).length =
   roots_rel hlen cfg₁ cfg₂ blocks (t1 := none) (t2 := none) trivial rs h
 
 /-- the same from any pair of related states (`Rel`: same abstract tree, consistent node keys, un-prefixed root
-key) — e.g. one committed root loaded in two differently configured stores. -/
+key) — e.g. one committed root loaded in two differently configured stores WITHOUT MVCC (a tree loaded under
+`enableMVCC` has its values elided, is not `Hashed` and is not covered; that `load` of a saved tree gives `Rel` is
+`C01.loaded_tree_inv` for the shape/keys and is not composed here). -/
 theorem root_cfg_independent_from {H : Bytes → Bytes} (hlen : ∀ x, (H x).length = 32) (cfg₁ cfg₂ : Cfg)
     (t₁ t₂ : Tree) (hr : Rel H t₁ t₂) (blocks : List (Nat × Nat × List (Bytes × Bytes))) (rs : List Bytes)
     (h : roots H cfg₁ t₁ (blocks.map fun b => (b.1, b.2.2)) = some rs) :
@@ -93,6 +102,46 @@ theorem memset_commit_eq_set (H : Bytes → Bytes) (s : Store) (parent : Bytes) 
           obtain ⟨n'', db'⟩ := p
           exact Or.inl ⟨_, _, rfl, rfl, by simp [Store.cacheTree]⟩
 
+/-- **memset_commit_eq_set_total** — the same without the panic disjunct: when the parent's tree, as the store loads
+it, is "hashed or fresh" (`HoFT`; a loaded tree is fully keyed, `set` keeps it: `Tree.setMany_hoF`), `Node.Hash` leaves
+a key on every node and `save` answers (`C01.save_total`), so Set and MemSet→Commit both answer the root and leave
+the same database. -/
+theorem memset_commit_eq_set_total (H : Bytes → Bytes) (hlen : ∀ x, (H x).length = 32) (s : Store) (parent : Bytes)
+    (bh : Nat) (kvs : List (Bytes × Bytes)) (root : Bytes) (s1 : Store)
+    (h : memSet H s parent bh kvs = (.ok root, s1)) (hne : kvs ≠ [])
+    (hl : ∀ t s', s.loadRoot parent = (.ok t, s') → HoFT H t) :
+    ∃ s2 s3, Store.setKV H s parent bh kvs = (.ok root, s2) ∧ commit s1 root = (.ok root, s3) ∧ s3.db = s2.db := by
+  rcases memset_commit_eq_set H s parent bh kvs root s1 h hne with ok | ⟨s2, s3, e1, _⟩
+  · exact ok
+  · exfalso
+    unfold memSet at h
+    have hne' : kvs.isEmpty = false := by cases kvs <;> simp_all
+    simp only [hne', Bool.false_eq_true, if_false] at h
+    unfold Store.setKV at e1
+    have hl' := hl
+    generalize s.loadRoot parent = lr at h e1 hl'
+    obtain ⟨res, s'⟩ := lr
+    cases res with
+    | notfound => simp at h
+    | panic => simp at h
+    | ok t =>
+      simp only at h e1
+      cases hsm : Tree.setMany t kvs with
+      | none => simp [hsm] at h
+      | some t' =>
+        cases t' with
+        | none => simp [hsm] at h
+        | some n =>
+          have hf : HoF H n := Tree.setMany_hoF kvs t (hl' t s' rfl) (some n) hsm
+          simp only [hsm, saveTree] at e1
+          obtain ⟨hh, _⟩ := hashNode_spec hlen s'.cfg bh n.height n hf
+          obtain ⟨n', db', e, _⟩ := C01.save_total_keyed s'.cfg _ (C01.keyed_of_hashed _ hh) s'.db
+          change save s'.cfg (hashRoot H s'.cfg bh n).1 s'.db = some (n', db') at e
+          generalize hhr : hashRoot H s'.cfg bh n = hr at e1 e
+          obtain ⟨hn, hroot⟩ := hr
+          simp only at e
+          simp [e] at e1
+
 /-! ### memTree: the cache is *not* transparent in the code (finding, replayed by `h_c02` hunt mode) -/
 
 /-- full statement the design aimed at (`cache_transparent`): whatever pending updates were hashed and whatever
@@ -154,5 +203,31 @@ example : Mem.MemOK (Mem.run [.save [(1, ⟨none⟩), (2, ⟨none⟩), (10, ⟨s
   split at h
   · rename_i hk; subst hk; simpa using h
   · simp at h
+
+/-- **memOK_quiescent** — `MemOK` (the hypothesis of `cache_transparent_partial`) holds at every quiescent point
+of the discipline "each hashed pending update is saved before the next one is hashed" (MemSet → Commit, no
+rollback, no abandoned update), under content addressing (`G`: a key determines its record — what fails for the
+un-prefixed root key in a prefixed store, the finding): after any number of such pairs from the empty state, with
+the `TreeMap.Add` toggle accounted for, memTree holds only what the database holds.  Between the `hashPending` and
+its `save` `MemOK` is false (the new nodes are in memTree only) — that window is where reads of the pending root
+happen, and they are served by memTree alone. -/
+theorem memOK_quiescent (G : Mem.Key → Option Mem.Rec) (cs : List (Mem.Tbl × Bool))
+    (hc : ∀ c ∈ cs, ∀ p ∈ c.1, G p.1 = some p.2) : Mem.MemOK (cs.foldl Mem.commitPair ⟨[], []⟩) := by
+  suffices h : ∀ s : Mem.St, (∀ k r, Mem.find s.mem k = some r → Mem.find s.db k = some r) →
+      (∀ k r, Mem.find s.db k = some r → G k = some r) → (∀ c ∈ cs, ∀ p ∈ c.1, G p.1 = some p.2) →
+      Mem.MemOK (cs.foldl Mem.commitPair s) from
+    h ⟨[], []⟩ (fun k r e => by simp [Mem.find] at e) (fun k r e => by simp [Mem.find] at e) hc
+  induction cs with
+  | nil => intro s hm _ _; exact hm
+  | cons c rest ih =>
+    intro s hm hd hc'
+    obtain ⟨a, b⟩ := Mem.commitPair_ok G s c hm hd (hc' c (by simp))
+    exact ih (fun c' h' => hc c' (by simp [h'])) _ a b (fun c' h' => hc' c' (by simp [h']))
+
+/-- non-vacuity: two committed updates sharing a subtree, with the content-addressing table `G`. -/
+example : ∀ c ∈ [([(1, ⟨none⟩), (2, ⟨none⟩), (10, ⟨some (1, 2)⟩)], false), ([(3, ⟨none⟩), (11, ⟨some (10, 3)⟩)], true)],
+    ∀ p ∈ c.1, (fun k => if k = 10 then some ⟨some (1, 2)⟩ else if k = 11 then some ⟨some (10, 3)⟩
+      else if k ≤ 3 then some (⟨none⟩ : Mem.Rec) else none) p.1 = some p.2 := by
+  decide
 
 end C02
